@@ -204,4 +204,90 @@ example : quarter ⟨⟨2020, 1, 29⟩, 52200⟩ none none (-10) none 3 =
   decide
 
 
+/-! ## `_parse_simple_case` ("from 4 to 22 January 2020", "from 4 to 22 January", "from 4 to 22 next month") -/
+
+theorem luis_some (y m d : Nat) : luis (some (y : Int)) m d = formatDate ⟨y, m, d⟩ := by
+  simp [luis, formatDate]
+
+theorem same_month_ord (y m b e : Nat) (h : b ≤ e) : (⟨y, m, e⟩ : Date).ord - (⟨y, m, b⟩ : Date).ord = e - b := by
+  simp only [Date.ord]; omega
+
+theorem intStr_nonneg (a b : Nat) (h : a ≤ b) : intStr ((b : Int) - a) = natStr (b - a) := by
+  unfold intStr
+  rw [if_neg (by omega)]
+  congr 1; omega
+
+/-- Year and month named, both days exist, `begin_day ≤ end_day`: the values are those two dates (future = past), the
+TIMEX is the `dayTriple` of Props/C10 and therefore satisfies `tripleOK`; with `begin_day < end_day` the range is well
+formed. For every reference. -/
+theorem simple_case_definite_ok (R : DateTime) (y m bd ed : Nat) (rs : Int) (rf : Bool)
+    (hb : (⟨y, m, bd⟩ : Date).valid = true) (he : (⟨y, m, ed⟩ : Date).valid = true) (hle : bd ≤ ed) :
+    simpleCase R bd ed (some (y : Int)) (some m) rs rf =
+      .ok (dayTriple ⟨y, m, bd⟩ ⟨y, m, ed⟩) ⟨⟨y, m, bd⟩, 0⟩ ⟨⟨y, m, ed⟩, 0⟩ ⟨⟨y, m, bd⟩, 0⟩ ⟨⟨y, m, ed⟩, 0⟩ ∧
+    tripleOK (dayTriple ⟨y, m, bd⟩ ⟨y, m, ed⟩) (some (formatDate ⟨y, m, bd⟩)) (some (formatDate ⟨y, m, ed⟩)) = true ∧
+    (bd < ed → 2 ≤ y → rangeOK ⟨⟨y, m, bd⟩, 0⟩ ⟨⟨y, m, ed⟩, 0⟩) := by
+  have hord : (⟨y, m, bd⟩ : Date).ord ≤ (⟨y, m, ed⟩ : Date).ord := by simp only [Date.ord]; omega
+  refine ⟨?_, between_dates_consistent _ _ hb he hord, ?_⟩
+  · unfold simpleCase
+    simp only [Option.isNone_some, Bool.false_and, Bool.false_eq_true, if_false, Int.toNat_natCast, luis_some,
+      mk_valid y m bd hb, mk_valid y m ed he, intStr_nonneg bd ed hle]
+    simp [dayTriple, same_month_ord y m bd ed hle]
+  · intro hlt hy
+    exact ⟨hb, he, by simp only [Date.ord]; omega, ne_min_of_year _ hy, ne_min_of_year _ hy⟩
+
+/-- No year in the text (month named): the future and the past value are the same days in two consecutive years —
+the year of the reference and the one after it when the begin day (at midnight) lies before the reference, else the
+year before and the year of the reference; both ranges are well formed when both days exist in every year and
+`begin_day < end_day`. The TIMEX `(XXXX-MM-DD,XXXX-MM-DD,P<n>D)` has open years. -/
+theorem simple_case_open_year (R : DateTime) (hv : R.date.valid = true) (m bd ed : Nat) (rs : Int) (rf : Bool)
+    (hb : everyYear m bd) (he : everyYear m ed) (hlt : bd < ed) (hy1 : 3 ≤ R.date.y) (hy2 : R.date.y ≤ 9998) :
+    ∃ Y : Nat, (Y = R.date.y ∨ Y + 1 = R.date.y) ∧
+      simpleCase R bd ed none (some m) rs rf =
+        .ok ([40] ++ luis none m bd ++ [44] ++ luis none m ed ++ [44, 80] ++ natStr (ed - bd) ++ [68, 41])
+          ⟨⟨Y + 1, m, bd⟩, 0⟩ ⟨⟨Y + 1, m, ed⟩, 0⟩ ⟨⟨Y, m, bd⟩, 0⟩ ⟨⟨Y, m, ed⟩, 0⟩ ∧
+      rangeOK ⟨⟨Y + 1, m, bd⟩, 0⟩ ⟨⟨Y + 1, m, ed⟩, 0⟩ ∧ rangeOK ⟨⟨Y, m, bd⟩, 0⟩ ⟨⟨Y, m, ed⟩, 0⟩ := by
+  have vy : ∀ y d, everyYear m d → 1 ≤ y → y ≤ 9999 → (⟨y, m, d⟩ : Date).valid = true :=
+    fun y d h a b => valid_everyYear y m d h a b
+  have rng : ∀ y, 2 ≤ y → y ≤ 9999 → rangeOK ⟨⟨y, m, bd⟩, 0⟩ ⟨⟨y, m, ed⟩, 0⟩ := by
+    intro y a b
+    exact ⟨vy y bd hb (by omega) b, vy y ed he (by omega) b, by simp only [Date.ord]; omega, ne_min_of_year _ a, ne_min_of_year _ a⟩
+  have v0 := vy R.date.y bd hb (by omega) (by omega)
+  have istr := intStr_nonneg bd ed (by omega)
+  by_cases c : (DateTime.lt ⟨⟨R.date.y, m, bd⟩, 0⟩ R) = true
+  · have nle : ¬ (DateTime.le R ⟨⟨R.date.y, m, bd⟩, 0⟩ = true) := by
+      rw [lt_iff] at c; rw [le_iff]; simp only at c ⊢; omega
+    refine ⟨R.date.y, Or.inl rfl, ?_, rng _ (by omega) (by omega), rng _ (by omega) (by omega)⟩
+    unfold simpleCase
+    simp only [Option.isNone_none, Int.toNat_natCast, mk_valid R.date.y m bd v0, c, nle, Bool.true_and, if_true,
+      Bool.and_false, Bool.false_eq_true, if_false, istr, int_succ,
+      mk_valid (R.date.y + 1) m bd (vy _ bd hb (by omega) (by omega)),
+      mk_valid (R.date.y + 1) m ed (vy _ ed he (by omega) (by omega)),
+      mk_valid R.date.y m ed (vy _ ed he (by omega) (by omega))]
+  · have le' : (DateTime.le R ⟨⟨R.date.y, m, bd⟩, 0⟩ = true) := by
+      rw [lt_iff] at c; rw [le_iff]; simp only at c ⊢; omega
+    have e1 : R.date.y - 1 + 1 = R.date.y := by omega
+    refine ⟨R.date.y - 1, Or.inr e1, ?_, by rw [e1]; exact rng _ (by omega) (by omega), rng _ (by omega) (by omega)⟩
+    unfold simpleCase
+    simp only [Option.isNone_none, Int.toNat_natCast, mk_valid R.date.y m bd v0, c, le', Bool.true_and, if_true,
+      Bool.and_false, Bool.false_eq_true, if_false, istr, int_pred _ (show 1 ≤ R.date.y by omega), e1,
+      mk_valid (R.date.y - 1) m bd (vy _ bd hb (by omega) (by omega)),
+      mk_valid (R.date.y - 1) m ed (vy _ ed he (by omega) (by omega)),
+      mk_valid R.date.y m ed (vy _ ed he (by omega) (by omega))]
+
+/-- Where the code yields begin > end, the marker date, or the wrong month (witnesses, as the implementation computes
+them): (1) `from 22 to 4 January` → duration `P-18D`, begin after end; (2) `from 28 to 31 February` → the end is
+`0001-01-01`; (3) a relative month that leaves the year: `… last month` asked in January stays in January (of the year
+before), `… next month` asked in December answers December of the next year. -/
+theorem simple_case_witnesses :
+    simpleCase ⟨⟨2020, 1, 29⟩, 52200⟩ 22 4 none (some 1) 0 false =
+      .ok ("(XXXX-01-22,XXXX-01-04,P-18D)".toList.map Char.toNat) ⟨⟨2021, 1, 22⟩, 0⟩ ⟨⟨2021, 1, 4⟩, 0⟩ ⟨⟨2020, 1, 22⟩, 0⟩ ⟨⟨2020, 1, 4⟩, 0⟩ ∧
+    simpleCase ⟨⟨2020, 1, 29⟩, 52200⟩ 28 31 none (some 2) 0 false =
+      .ok ("(XXXX-02-28,XXXX-02-31,P3D)".toList.map Char.toNat) ⟨⟨2020, 2, 28⟩, 0⟩ DateUtils.minValue ⟨⟨2019, 2, 28⟩, 0⟩ DateUtils.minValue ∧
+    simpleCase ⟨⟨2020, 12, 15⟩, 0⟩ 4 22 none none 1 true =
+      .ok ("(2021-12-04,2021-12-22,P18D)".toList.map Char.toNat) ⟨⟨2021, 12, 4⟩, 0⟩ ⟨⟨2021, 12, 22⟩, 0⟩ ⟨⟨2021, 12, 4⟩, 0⟩ ⟨⟨2021, 12, 22⟩, 0⟩ ∧
+    simpleCase ⟨⟨2020, 1, 15⟩, 0⟩ 4 22 none none (-1) false =
+      .ok ("(XXXX-01-04,XXXX-01-22,P18D)".toList.map Char.toNat) ⟨⟨2020, 1, 4⟩, 0⟩ ⟨⟨2020, 1, 22⟩, 0⟩ ⟨⟨2019, 1, 4⟩, 0⟩ ⟨⟨2019, 1, 22⟩, 0⟩ := by
+  refine ⟨?_, ?_, ?_, ?_⟩ <;> decide +kernel
+
+
 end RTV.Periods
